@@ -61,6 +61,7 @@ type Mat struct {
 	B      []byte
 	Secret bool
 	BigInt bool // big-endian integer: encodings may add/strip leading zero bytes
+	Field  string // proto field name that must carry this value in the wire form ("" = any bytes field)
 }
 
 // KeyCase is one concrete key built by the catalogue.
